@@ -103,3 +103,17 @@ Example c_map_mutations_eq_rose_nonvacuous :
 Proof.
   eexists. eexists. vm_compute. repeat split; try reflexivity. eexists. reflexivity.
 Qed.
+
+(* the Python layer: alleles ("T","G","A") as tokens [20;7;1]; ancestral_state given as the
+   string "G" (token 7) resolves to index 1 by lookup; the result is translated back *)
+Example py_map_mutations_nonvacuous :
+  resolve_anc (AStr 7) [20; 7; 1] = Ok (Some 1) /\
+  resolve_anc (AStr 1) [20; 7; 1] = Ok (Some 2) /\       (* the string whose token is 1 is NOT index 1 *)
+  resolve_anc (AStr 5) [20; 7; 1] = Err 0 /\ resolve_anc (AInt 3) [20; 7; 1] = Err 0 /\
+  py_map_mutations (c_map_mutations_gen true) f2_arrays [0; 1; 1; 2] (AStr 7) [20; 7; 1] =
+    MOk 7 [(4, 20, -1); (3, 1, 0); (2, 7, 1); (1, 7, 1)] /\
+  py_map_mutations (c_map_mutations_gen true) f2_arrays [0; 1; 1; 2] (AStr 7) [20; 7] = MErr EIndex /\
+  py_map_mutations (c_map_mutations_gen true) f2_arrays [0; 1; 1; 128] ANone [20; 7; 1] = MErr EOverflow /\
+  py_map_mutations (c_map_mutations_gen true) f2_arrays [0; 1; 1; -2] ANone [20; 7; 1] = MErr ELibrary /\
+  py_map_mutations (c_map_mutations_gen true) f2_arrays [0; 1; 1] ANone [20; 7; 1] = MErr EValue.
+Proof. vm_compute. repeat split; reflexivity. Qed.
